@@ -29,6 +29,10 @@ BASE_ENV = dict(LINUX_FLAGS)
 for _m in ("__init__", "_common", "_pslinux", "_psposix"):
     BASE_ENV[f"{_m}.debug"] = EnvFunc("debug", env_debug)
 
+for _m in ("__init__", "_common", "_pslinux", "_psposix"):
+    BASE_ENV[f"{_m}.ENCODING"] = "utf-8"
+    BASE_ENV[f"{_m}.ENCODING_ERRS"] = "surrogateescape"
+
 SCPU_FIELDS = ['user', 'nice', 'system', 'idle', 'iowait', 'irq', 'softirq', 'steal', 'guest', 'guest_nice']
 
 
@@ -128,3 +132,28 @@ def named(it, label, term):
     v = it.fresh(label, term.sort, term.bk)
     it.ctx.assume(Eq(v, term))
     return v
+
+
+def bounded_sweep(contract, rid, quick=300, thorough=5000, cfg="-"):
+    """bounded stand-in for a function outside the solvers' reach: the executable contract is
+    evaluated on every input of the runner's generator (labelled bounded, never counted as proved)"""
+    import json
+    import os
+    import subprocess
+
+    def run(tier, seed):
+        here = os.path.dirname(os.path.dirname(os.path.abspath(__file__)))
+        budget = quick if tier == "quick" else thorough
+        meta = {"cfg": cfg, "obligation": "", "prop": contract.prop, "contract": contract.name}
+        cmd = ["/venv/bin/python", os.path.join(here, "replay", "run.py"), "--sweep", rid, json.dumps(meta), str(budget), str(seed)]
+        env = dict(os.environ, PYTHONPATH=os.environ.get("VERIF_REPO", "/repo"))
+        p = subprocess.run(cmd, capture_output=True, text=True, timeout=3000, env=env, cwd=here)
+        lines = p.stdout.strip().splitlines()
+        try:
+            out = json.loads(lines[-1])
+        except Exception:
+            raise RuntimeError("bounded sweep failed: " + (p.stdout + p.stderr)[-800:])
+        return {"function": contract.name, "bound": f"{out['cases']} generated inputs (corpus of adversarial names + seeded random)",
+                "cases": out["cases"], "evaluations": out["evaluations"], "samples": out["samples"],
+                "failures": out["failures"]}
+    return run
